@@ -74,11 +74,11 @@ def entry_bytes(name, data, status=1, length=None, hash_=None, h16=None):
         (md5(data) if hash_ is None else hash_) + (md5(data[:16384]) if h16 is None else h16) + nb
 
 
-def volume_bytes(entries_raw, saved_hashes, number, data, count=None, flo=0x60, version=0x00010000, ident=b"PAR\0\0\0\0\0", sethash=None, fix_control=True):
+def volume_bytes(entries_raw, saved_hashes, number, data, count=None, flo=0x60, version=0x00010000, ident=b"PAR\0\0\0\0\0", sethash=None, fix_control=True, flb=None, databytes=None):
     rest = b"".join(entries_raw) + data
-    flb = len(rest) - len(data)
+    flb = (len(rest) - len(data)) if flb is None else flb
     sh = md5(b"".join(saved_hashes)) if sethash is None else sethash
-    tail = sh + struct.pack("<QQQQQQ", number, len(entries_raw) if count is None else count, flo, flb, 0x60 + flb, len(data))
+    tail = sh + struct.pack("<QQQQQQ", number, len(entries_raw) if count is None else count, flo, flb & 0xFFFFFFFFFFFFFFFF, (0x60 + flb) & 0xFFFFFFFFFFFFFFFF, len(data) if databytes is None else databytes)
     control = md5(tail + rest) if fix_control else bytes(16)
     return ident + struct.pack("<Q", version) + control + tail + rest
 
